@@ -13,15 +13,15 @@ EXTENDS CodecMut, Json, SequencesExt
 CONSTANTS OutFile, ValuesFile, Names, Classes, K, MedLimit, BigLimit
 VARIABLE x
 
-MaxLen(n) == Len(EncC(Schema[n], MaxV(Schema[n])))
-ValsFor(n) == IF MaxLen(n) <= MedLimit THEN Vals(Schema[n])
-              ELSE IF MaxLen(n) <= BigLimit THEN {MinV(Schema[n]), MaxV(Schema[n])} ELSE {MinV(Schema[n])}
+MaxLen(n) == Len(EncC(AnySchema[n], MaxV(AnySchema[n])))
+ValsFor(n) == IF MaxLen(n) <= MedLimit THEN Vals(AnySchema[n])
+              ELSE IF MaxLen(n) <= BigLimit THEN {MinV(AnySchema[n]), MaxV(AnySchema[n])} ELSE {MinV(AnySchema[n])}
 KFor(n) == IF MaxLen(n) <= MedLimit THEN K ELSE 2
-CasesOf(n, v, k) == {[ty |-> n, cls |-> c.cls, in |-> c.in] : c \in {c \in Mutants(Schema[n], v, k) : c.cls \in Classes}}
+CasesOf(n, v, k) == {[ty |-> n, cls |-> c.cls, in |-> c.in] : c \in {c \in Mutants(AnySchema[n], v, k) : c.cls \in Classes}}
 SpecCases == UNION {UNION {CasesOf(n, v, KFor(n)) : v \in ValsFor(n)} : n \in Names}
 \* seeded values from the driver (only well-formed ones of the selected types, and not the huge ones)
 SampleCases(T) == UNION {IF T[i].ty \in Names /\ Len(T[i].encs) > 0 /\ Len(T[i].encs[1]) <= MedLimit /\ MaxLen(T[i].ty) <= MedLimit
-                         THEN LET ty == Schema[T[i].ty]
+                         THEN LET ty == AnySchema[T[i].ty]
                                   cv == Canon(ty, T[i].v) IN
                               IF Valid(ty, cv) THEN CasesOf(T[i].ty, cv, K) ELSE {}
                          ELSE {} : i \in 1..Len(T)}
